@@ -12,7 +12,9 @@ def histories(C, tier):
         lim = LIMITS[k]
         for v in sorted({0, 1, 252, 253, 254, 255, 256, lim - 2, lim - 1, lim, lim + 1, 2 ** 31, 2 ** 64, 10 ** 30, -1, -2} | {SHORT_MAX - 1, SHORT_MAX}):
             singles.append((k, v))
-    strs = [[], [65], [0xFF], [65, 0xFF, 66], [0x7E], [0x20AC, 0x263A], [0xFF, 0xFF], [0x79, 0xFF, 0x50, 0x4F, 0x22, 0x7F], [0xD800]]
+    brace = lambda t: [ord(c) for c in t]
+    strs = [[], [65], [0xFF], [65, 0xFF, 66], [0x7E], [0x20AC, 0x263A], [0xFF, 0xFF], [0x79, 0xFF, 0x50, 0x4F, 0x22, 0x7F], [0xD800],
+            brace('{name} x'), brace('{0} and {1}'), brace('{}{}'), brace('{0[k]}'), brace('%s %d {'), brace('}{')]
     for s in strs:
         singles += [('string', s), ('enc', s)]
         for d in (-1, 0, 1, 3):
@@ -21,6 +23,9 @@ def histories(C, tier):
                 if n >= 0:
                     singles += [('fixed', s, n, p), ('fixedenc', s, n, p)]
     singles += [('bytes', []), ('bytes', [0, 255, 254]), ('fixed', [65], -1, True), ('fixed', [], -1, False)]
+    # paddings far longer than any numeric limit of the protocol (the padding is length - len(string) bytes, whatever it is)
+    for n in (253, 254, 255, 256, 300, 700):
+        singles += [('fixed', [72, 105], n, True), ('fixedenc', [72, 105], n, True), ('fixed', [], n, True)]
     for op in singles:
         for san in (False, True):
             for pre in ([], [('char', 7)], [('bytes', [1, 255, 3])]):
